@@ -59,8 +59,15 @@ func (fs *FS) op(kind string) (Fault, bool) {
 	k := len(fs.Ops)
 	fs.Ops = append(fs.Ops, kind)
 	f, ok := fs.Faults[k]
+	if ok && f.Kind == "crash" && kind != "write" {
+		panic(CrashMsg)
+	}
 	return f, ok
 }
+
+// CrashMsg is the panic value of a "crash" fault: the process dies at that operation (a write first
+// applies its first Short bytes), and the device keeps whatever reached it.
+const CrashMsg = "faultos: simulated crash"
 
 // File mimics *os.File.
 type File struct {
@@ -112,6 +119,11 @@ func (f *File) Write(p []byte) (int, error) {
 				n = ft.Short
 				err = io.ErrShortWrite
 			}
+		case "crash":
+			if ft.Short < n {
+				n = ft.Short
+			}
+			defer panic(CrashMsg)
 		}
 	}
 	data := f.fs.Files[f.name]
